@@ -327,6 +327,7 @@ pub fn run_scenario(scn: &Scenario, prefix: &[usize]) -> RunResult {
     let nucleo: Nucleo<Tracked> = Nucleo::new(config.clone(), notify, Some(scn.pool_threads), scn.columns);
     exec.set_probe(nucleo.verif_worker_locked_probe());
     exec.set_flag_addr(nucleo.verif_should_notify_addr());
+    exec.set_cancel_addr(nucleo.verif_canceled_addr());
     // preload single-threaded, before any scheduling starts (the hooks see an unregistered thread)
     if !scn.preload.is_empty() {
         let inj = nucleo.injector();
